@@ -19,14 +19,14 @@ RULE = ("two inverter objects (all ordered pairs of 8 templates: ET 205 eco-v2 /
         "contents run a sequence of <= 4 calls from {read_runtime_data, read/write of each setting kind, set_operation_mode, "
         "get_operation_mode, read_settings_data}; per scenario the two SOLO transcripts and several INTERLEAVED transcripts (call-level "
         "merges: A-then-B, B-then-A, alternating, random; and concurrent tasks with response latency so that one object's multi-step "
-        "call is interleaved inside by the other's) are each produced in a FRESH interpreter (the state under test is "
+        "call is interleaved inside by the other's; also with inverters that answer every request in two pieces) are each produced in a FRESH interpreter (the state under test is "
         "process-global); per object the requests seen by its simulator (Modbus/TCP transaction id masked) and the results must "
         "equal the solo transcript; every returned value is snapshotted (str + fields) at return time and re-checked at the end; "
         "distinct = distinct (template pair, call sequences, interleaving) tuples")
 ASSUMPTIONS = ["results are compared by type name, str() and (for eco-mode / schedule values) their public fields",
                "each transcript runs in its own interpreter started by the check (subprocess per transcript)"]
 MUST = ["transcripts", "interleavings_compared", "concurrent_interleavings", "snapshots_checked", "eco_values_snapshotted",
-        "cross_family_pairs", "same_template_pairs", "requests_compared"]
+        "cross_family_pairs", "same_template_pairs", "requests_compared", "concurrent_with_fragmented_answers"]
 EXHAUSTIVE = {"quick": False, "thorough": False}
 
 TEMPLATES = ["ET205", "ET205g", "ET745", "ETv1", "ETf", "DT", "DTu", "ESv1", "ESv2", "ESv2g"]
@@ -108,6 +108,8 @@ def worker(spec):
     for i, o in enumerate(objs):
         sim = build_sim(o["template"], o["seed"], f"inv{i}")
         sim.delay = spec.get("latency", 0.0)
+        if o.get("frag"):           # this inverter answers in two pieces (same in its solo transcript)
+            sim.frag = tuple(o["frag"])
         sims_.append(sim)
         peers[(f"inv{i}", o["port"])] = sim
     results = [[] for _ in objs]
@@ -247,8 +249,11 @@ def scenario_check(sc, part, workdir):
         merges.append(m)
     inter = [{"objects": objs, "active": [0, 1], "schedule": m} for m in merges]
     for k in range(sc["n_concurrent"]):
-        inter.append({"objects": objs, "active": [0, 1], "schedule": "concurrent", "latency": 0.1,
-                      "offsets": [rnd.choice((0.0, 0.05, 0.25)), rnd.choice((0.0, 0.05, 0.15, 0.35))]})
+        offs = [rnd.choice((0.0, 0.05, 0.25)), rnd.choice((0.0, 0.05, 0.15, 0.35))]
+        if sc.get("fragmented"):        # (latency 0.1, pieces 0.04 apart: the other object's request falls between the two pieces)
+            offs = [[0.0, 0.12], [0.12, 0.0], [0.0, 0.26]][k % 3]
+            part.count("concurrent_with_fragmented_answers")
+        inter.append({"objects": objs, "active": [0, 1], "schedule": "concurrent", "latency": 0.1, "offsets": offs})
     outs = run_transcripts(solo + inter, workdir)
     part.count("transcripts", len(outs))
     pair = f"{objs[0]['template']}+{objs[1]['template']}"
@@ -331,6 +336,19 @@ def directed_scenarios(seed):
     return out
 
 
+def fragment_scenarios(seed):
+    """both inverters answer every request in two pieces (header first, the rest 0.04 s later) while the two objects' calls overlap:
+    the reassembly state of one object must not be disturbed by the other object's traffic"""
+    out = []
+    rr = [["read_runtime_data"]]
+    for a, b in (("ESv1", "ESv1"), ("ESv2", "ESv1"), ("ET205", "ET205"), ("DT", "DT"), ("ESv1", "ET205"), ("ET205", "DT")):
+        for calls_a, calls_b in ((rr, rr), (rr + [["read_settings_data"]], [["read_settings_data"]] + rr)):
+            out.append({"seed": f"{seed}:frag:{a}:{b}:{len(out)}", "n_random_merges": 0, "n_concurrent": 3, "fragmented": True,
+                        "objects": [{"template": a, "port": 8899, "seed": f"{seed}:fA{len(out)}", "calls": calls_a, "frag": [9, 0.04]},
+                                    {"template": b, "port": 8899, "seed": f"{seed}:fB{len(out)}", "calls": calls_b, "frag": [9, 0.04]}]})
+    return out
+
+
 def plan(tier, seed):
     n = 16
     return [{"shard": i, "shards": n, "tier": tier, "seed": seed} for i in range(n)]
@@ -340,7 +358,7 @@ def run_shard(spec):
     part = Part()
     tier = spec["tier"]
     rnd = random.Random(f"{spec['seed']}:C20")
-    scs = directed_scenarios(spec["seed"])
+    scs = directed_scenarios(spec["seed"]) + fragment_scenarios(spec["seed"])
     pairs = list(itertools.product(TEMPLATES, repeat=2))
     reps = 1 if tier == "quick" else 12
     for r in range(reps):
